@@ -1,12 +1,126 @@
 import Driver.Util
-/-! Driver section for C07 (stub until the model is online). -/
+import RxnModel.Model.Lsm
+/-!
+Driver section for C07/C18/C08-style traces of the real `dkv.DB`.
+Input lines are `op ## impl-output` (trace validation): the implementation's output tells which background
+action actually happened; everything the model can derive itself (read results, enabledness, safety of a change
+set) is recomputed and printed, and compared with the implementation by the harness.
+-/
 namespace Driver.C07
-open Rxn Driver
+open Rxn Driver Rxn.Lsm
 
-def step (st : Unit) : List String → Unit × String
+structure St where
+  s : State := {}
+  spec : Spec := []
+  bad : Bool := false
+  /-- background tasks enqueued and not finished (the code's task queues hold 5) -/
+  flushQ : Nat := 0
+  compactQ : Nat := 0
+
+def showAnswer : Option Bytes → String
+  | some v => "val " ++ toHex v
+  | none => "absent"
+
+def showScan (r : Run) : String :=
+  if r.isEmpty then "empty" else joinWith "," (r.map fun e => toHex e.key ++ ":" ++ toHex e.val)
+
+/-- spec scan: live keys with the prefix in ascending order with their latest values -/
+def specScan (m : Spec) (p : Bytes) : Run :=
+  let keys := (m.map (·.key)).eraseDups
+  let latest := keys.filterMap (fun k => Spec.get m k)
+  let live := latest.filter (fun e => !e.del && Bytes.hasPrefix e.key p)
+  live.foldl (fun acc e => Run.insert acc e) []
+
+def withSpec (model spec : String) : String :=
+  if model == spec then model else model ++ " #spec " ++ spec
+
+/-- parse `k:seq:d:v;k:seq:d:v` -/
+def parseRun (s : String) : Run :=
+  if s == "empty" || s == "" then [] else
+  (s.splitOn ";").filterMap fun item =>
+    match item.splitOn ":" with
+    | [k, sq, d, v] => some ⟨hexOr k, natOr sq, d == "1", hexOr v⟩
+    | _ => none
+
+def parseIds (s : String) : List Nat :=
+  if s == "-" || s == "" then [] else (s.splitOn ",").map natOr
+
+def splitHint (ws : List String) : List String × List String :=
+  let i := ws.idxOf "##"
+  (ws.take i, ws.drop (i + 1))
+
+def applyActs (st : St) (acts : List Act) : Option St :=
+  match run st.s acts with
+  | some s' =>
+    let spec' := acts.foldl (fun (m : Spec × Nat) a => (specStep m.1 m.2 a, match a with | .put .. => m.2 + 1 | .del .. => m.2 + 1 | _ => m.2)) (st.spec, st.s.seq)
+    some { st with s := s', spec := spec'.1 }
+  | none => none
+
+def writeOp (st : St) (a : Act) (hint : List String) : St × String :=
+  if st.s.reading.isSome then (st, "reader-busy") else
+  if st.flushQ ≥ 4 then (st, "queue-full") else
+  let rot := hint == ["rot=1"]
+  match applyActs st (if rot then [a, .rotate] else [a]) with
+  | some st' => ({ st' with flushQ := st'.flushQ + (if rot then 1 else 0) }, if rot then "rot=1" else "rot=0")
+  | none => ({ st with bad := true }, "disabled")
+
+def step (st : St) (ws : List String) : St × String :=
+  let (op, hint) := splitHint ws
+  match op with
+  | ["put", k, v] => writeOp st (.put (hexOr k) (hexOr v)) hint
+  | ["del", k] => writeOp st (.del (hexOr k)) hint
+  | ["get", k] =>
+    if st.s.reading.isSome then (st, "reader-busy") else
+    (st, withSpec (showAnswer (answer (get st.s (hexOr k)))) (showAnswer (answer (Spec.get st.spec (hexOr k)))))
+  | ["scan", p] =>
+    if st.s.reading.isSome then (st, "reader-busy") else
+    (st, withSpec (showScan (scan st.s (hexOr p))) (showScan (specScan st.spec (hexOr p))))
+  | ["getpark", k] =>
+    if st.s.reading.isSome then (st, "reader-busy") else
+    match applyActs st [.getA (hexOr k)] with
+    | some st' =>
+      match st'.s.reading with
+      | some (_, some e) =>
+        -- memtable hit: the real call returns without reaching the second phase
+        let st'' := { st' with s := { st'.s with reading := none } }
+        (st'', withSpec ("done " ++ showAnswer (answer (some e))) ("done " ++ showAnswer (answer (Spec.get st.spec (hexOr k)))))
+      | _ => (st', "parked")
+    | none => ({ st with bad := true }, "disabled")
+  | ["resume"] =>
+    match st.s.reading with
+    | none => (st, "no-reader")
+    | some (k, _) =>
+      let res := getBResult st.s
+      match applyActs st [.getB] with
+      | some st' => (st', withSpec (showAnswer (answer res)) (showAnswer (answer (Spec.get st.spec k))))
+      | none => ({ st with bad := true }, "disabled")
+  | ["bg", _] =>
+    match hint with
+    | ["none"] => (st, "none")
+    | ["compactbegin"] => (st, "compactbegin")
+    | ["compactidle"] => ({ st with compactQ := st.compactQ - 1 }, "compactidle")
+    | ["queue-full"] => (st, if st.compactQ ≥ 4 then "queue-full" else "not-full")
+    | ["flushbegin", n] =>
+      match applyActs st [.flushBegin (natOr n)] with
+      | some st' => (st', "flushbegin " ++ toString ((st'.s.flushing.getD []).length))
+      | none => ({ st with bad := true }, "disabled " ++ n)
+    | ["flushcommit", n] =>
+      let cnt := (st.s.flushing.getD []).length
+      match applyActs st [.flushCommit] with
+      | some st' => ({ st' with flushQ := st'.flushQ - 1, compactQ := st'.compactQ + 1 }, "flushcommit " ++ toString cnt)
+      | none => ({ st with bad := true }, "disabled " ++ n)
+    | ["compact", lvl, rm, add] =>
+      let l := natOr (lvl.drop 1).toString
+      let rmIds := parseIds (rm.drop 3).toString
+      let addStr := (add.drop 4).toString
+      let runs := if addStr == "none" then [] else (addStr.splitOn "|").map parseRun
+      match applyActs st [.compact rmIds l runs] with
+      | some st' => (st', joinWith " " hint)
+      | none => ({ st with bad := true }, "unsafe")
+    | _ => (st, "bad-hint")
   | _ => (st, "bad-op")
 
 def handle (lines : Array String) (i : Nat) (out : Array String) : Nat × Array String :=
-  runLines step () lines i out
+  runLines step {} lines i out
 
 end Driver.C07
